@@ -522,7 +522,8 @@ theorem peerVariant_matches_source (ll lr lp : SDict) : genPeerVariant ll lr lp 
   rcases PyGen.optStr_cases2 e "dynip" "ip" with rfl | rfl | rfl | ⟨s'', rfl, h1'', h2''⟩ <;>
     (try simp (config := {zeta := false}) only [PyGen.bind_ok, PyGen.bind_error, beq_iff_eq, if_pos, if_neg, *,
       String.reduceEq, if_true, if_false]) <;>
-  cases b <;> cases d <;> cases f <;> rfl
+  cases b <;> cases d <;> cases f <;>
+    first | rfl | simp [PyGen.bind_ok, PyGen.bind_error, *]
 
 open I2N.Extracted.GenTunnel in
 /-- the generated definition computes (it is not stuck on anything): the default triple, and a missing key -/
